@@ -15,14 +15,14 @@ import (
 )
 
 type pgpSig struct {
-	Off, Len         int // whole packet
-	BodyOff          int
-	HashedEnd        int // end of hashed area (absolute)
-	UnhashedOff      int // start of unhashed subpacket data
-	UnhashedLen      int
-	IssuerKeyIDOff   int // absolute offset of an 8-byte issuer key id in the unhashed area (-1: none)
-	IssuerInHashed   bool
-	MPIs             [][2]int // value ranges
+	Off, Len       int // whole packet
+	BodyOff        int
+	HashedEnd      int // end of hashed area (absolute)
+	UnhashedOff    int // start of unhashed subpacket data
+	UnhashedLen    int
+	IssuerKeyIDOff int // absolute offset of an 8-byte issuer key id in the unhashed area (-1: none)
+	IssuerInHashed bool
+	MPIs           [][2]int // value ranges
 }
 
 // pgpParseSig parses one signature packet at off.
